@@ -7,7 +7,7 @@
     fragments), [EvReport]/[EvReportFrags] (status report handed to the CL), [EvSendFail]. *)
 From Coq Require Import NArith List Bool.
 From Coq Require Import String.
-From DTN Require Import Gen.ReportTable Gen.Chain Model.BpAgent Proofs.BpAgentProofs.
+From DTN Require Import Gen.ReportTable Gen.Chain Gen.RecvGates Model.BpAgent Proofs.BpAgentProofs Proofs.BpAgentGates.
 Import ListNotations.
 Local Open Scope N_scope.
 
@@ -162,4 +162,47 @@ Example C10_no_route_example :
   let b := w_bundle 1000 1 None in
   accepted a b = true /\ local_dest a b = false
   /\ option_map snd (find (fun r => w_matches (fst r) (b_dst b)) (a_rx a)) = None.
+Proof. vm_compute. repeat split. Qed.
+
+(** ---- admission gates: the head of Agent.recv_bundle, translated into Gen/RecvGates.v ----
+    [run_gates gates a b] walks the gates as the source statements behave (a rejecting gate returns; the
+    seen-set insert takes effect whatever follows it) and yields (admitted?, agent, 'receive' recorded?). *)
+
+(** The gates in source order admit exactly the bundles the model's [recv_core] processes; when they admit,
+    the identity and 'receive' are recorded; when they reject, the agent is untouched. *)
+Theorem C10_gates_match_model :
+  forall (a : agent) (b : bundle),
+    let '(ok, a', rcv) := run_gates recv_gates a b in
+    ok = accepted a b /\ rcv = accepted a b
+    /\ a' = (if accepted a b then set_seen a (a_seen a ++ [ident_of b]) else a).
+Proof. exact gates_match_model. Qed.
+Print Assumptions C10_gates_match_model.
+
+(** The identity is recorded only after the CRC gate has passed: a bundle failing the CRC check leaves no
+    trace (so a damaged copy cannot suppress the intact one). *)
+Theorem C10_gates_crc_before_seen :
+  forall (a : agent) (b : bundle),
+    b_crc_ok b = false -> run_gates recv_gates a b = (false, a, false).
+Proof. exact gates_crc_first. Qed.
+Print Assumptions C10_gates_crc_before_seen.
+
+(** [recv_core] leaves exactly the seen list the gates leave, and does nothing at all when they reject. *)
+Theorem C10_gates_recv_core :
+  forall (matches : N -> eid -> bool) (a : agent) (b : bundle),
+    a_seen (fst (fst (recv_core matches a b))) = a_seen (snd (fst (run_gates recv_gates a b)))
+    /\ (fst (fst (run_gates recv_gates a b)) = false -> recv_core matches a b = (a, [], None)).
+Proof. exact gates_recv_core. Qed.
+Print Assumptions C10_gates_recv_core.
+
+Theorem C10_gates_order : recv_gates = [GCrc; GOwnSource; GSeenTest; GSeenRecord; GReceive].
+Proof. exact gates_order. Qed.
+Print Assumptions C10_gates_order.
+
+(* non-vacuity: a CRC-damaged bundle is rejected with the seen list unchanged; the intact one is admitted *)
+Example C10_gates_example :
+  let a := w_agent [(0, AFwd)] [w_rpt_route] in
+  let bad := mkBundle 5 9 7 1000 1 None ALL_REPORT_FLAGS 5 false None 0 95 true false in
+  run_gates recv_gates a bad = (false, a, false)
+  /\ fst (fst (run_gates recv_gates a (w_bundle 1000 1 None))) = true
+  /\ a_seen (snd (fst (run_gates recv_gates a (w_bundle 1000 1 None)))) = [ident_of (w_bundle 1000 1 None)].
 Proof. vm_compute. repeat split. Qed.
